@@ -87,6 +87,12 @@ def r1(ctx: Ctx) -> None:
                         continue
                     ctx.check(none and bp.exit[0] in ("fall", "continue"), f, l.node, "a fill of an agent with itself leaves its holdings as they are", "no update (the two deltas cancel)", bp.describe()[:120])
                     continue
+                role = [c for c, pol, _ in bp.conds if not same_party(c) and any(x[0] == "attr" and x[2] == "agent_id" for x in subterms(strip_ver(c)))]
+                if role:
+                    if not getattr(ctx, "_c05_role_noted", False):
+                        ctx._c05_role_noted = True  # type: ignore[attr-defined]
+                        ctx.unrec(f, l.node, "per fill: the buyer's and the seller's holdings are updated directly", "which side an agent is on is decided at run time by comparing ids (" + short(role[0])[:100] + "): which of these combinations can occur is not decided")
+                    continue
                 ctx.check(len(bp.conds) == len(self_conds) and bp.exit[0] == "fall", f, l.node, "holdings update is unconditional for every log", "no condition, no early exit", bp.describe()[:160])
                 sts = [e for e in bp.events if e.kind == "store"]
                 cash = [e for e in sts if e.attr == "cash_amount"]
